@@ -410,6 +410,7 @@ func generate(p *Prog, prop string, cover bool) *RunResult {
 	sort.Strings(rr.Unsupported)
 	if prop != "" {
 		goCaptureSweep(p, prop, rr)
+		orderedIterationSweep(p, prop, rr)
 	}
 	for _, n := range sortedKeys(p.CS.Externs) {
 		if xf := p.CS.Externs[n]; xf.Used {
